@@ -208,9 +208,11 @@ def check_C10(tier, nproc=None):
             c.add(Job('vH_C10_strings', [('bytes', 'd', n), ('int', spare)], weight=2 ** n))
     # a \u escape met far into a long string (reservation / capacity boundary), and a surrogate escape
     # followed by a truncated second escape
-    for t in ([b'"\\n' + b'a' * 1017, 3, b'\\u00e9', 2, b'"'], [b'"\\ud83d\\u', 2], [b'"\\ud83d\\ud', 1, b'"'], [b'\\ud83d\\ude0'], [b'"x\\ud83d\\', 1]):
-        c.add(Job('vH_C10_strings', [('tmpl', 'd', t), ('int', 0)], weight=800))
-        c.add(Job('vH_C10_strings', [('tmpl', 'd', t), ('int', 3)], weight=800))
+    long_t = [b'"\\n' + b'a' * 1019, 1, b'\\u00e9', 1, b'"'] if tier == 'quick' else [b'"\\n' + b'a' * 1017, 3, b'\\u00e9', 2, b'"']
+    for t in (long_t, [b'"\\ud83d\\u', 2], [b'"\\ud83d\\ud', 1, b'"'], [b'\\ud83d\\ude0'], [b'"x\\ud83d\\', 1]):
+        c.add(Job('vH_C10_strings', [('tmpl', 'd', t), ('int', 0)], weight=800 + 10 * sum(len(x) for x in t if isinstance(x, bytes))))
+        if tier != 'quick' or sum(len(x) for x in t if isinstance(x, bytes)) < 100:
+            c.add(Job('vH_C10_strings', [('tmpl', 'd', t), ('int', 3)], weight=800))
     # inputs whose backing array extends beyond their length (stale bytes between len and cap)
     for t in ([b'"\\u', ('hex', 4), b'"'], [b'\\u', ('hex', 4)], [b'"', 1, b'\\u', ('hex', 4)]):
         t = [((x[1], x[0]) if isinstance(x, tuple) else x) for x in t]
@@ -563,17 +565,37 @@ def check_C04(tier, nproc=None):
         for k in (4, 10, 27, 60):
             for nd in (5, 6):
                 c.add(Job('vH_FP_shift', [('int', nd), ('int', 0), ('int', k), ('bool', True)], pkg=FP, weight=5000, opts=os_))
+    # ... and the right-shift unit for small shift counts (its remainder loop needs the bit-vector back end
+    # to decide termination: n*10 mod 2^k reaches 0 after at most k rounds)
+    osr = {'scanvalue': True, 'nsamples': 1, 'bv_only': True}
+    rks = [1, 2, 3, 4, 8] if tier == 'quick' else list(range(1, 17)) + [20]
+    rnds = [1, 2] if tier == 'quick' else [1, 2, 3]
+    for k in rks:
+        for nd in rnds:
+            if k > 12 and nd > 1:
+                continue
+            c.add(Job('vH_FP_shift', [('int', nd), ('int', nd), ('int', k), ('bool', False)], pkg=FP, weight=100 * nd * k, opts=osr))
+    # tier 5b: the fallback run for real (decimal.set + floatBits) on literals it settles before any shifting:
+    # decimal exponent beyond +310 / below -330, and all-zero digit strings; sign must survive
+    S5 = [[b'-', (2, D), b'e-400'], [(3, D), b'e400'], [b'-0.', (3, D), b'E-350'], [(1, 'digit19'), b'.', (2, D), b'e+330'],
+          [b'-0.000e77'], [b'-', (2, D), b'.', (1, D), b'e5000'], [(1, D), b'E-99999']]
+    if tier != 'quick':
+        S5 += [[b'-', (6, D), b'e-340'], [(6, D), b'e312'], [b'0.', (5, D), b'e-333'], [b'-', (1, 'digit19'), (4, D), b'E+308'], [(2, D), b'e-20000'], [b'-00.00E-1']]
+    for t in S5:
+        c.add(Job('vH_FP_slow', [('tmpl', 'd', t)], pkg=FP, weight=300, opts={'slowpath': True, 'nsamples': 2}))
     c.bounds = {'scanner_all_strings': N, 'scanner_templates': [_tmplstr(t) for t in T],
                 'left_shift_unit': 'leftShift(a, k) for k in %s on every normalised decimal of %s digits: result = value*2^k exactly, normalised, not truncated' % (('1..60' if tier != 'quick' else ks), nds),
                 'glue_templates': [_tmplstr(t) for t in G],
+                'right_shift_unit': 'rightShift(a, k) for k in %s on every normalised decimal of %s digits (k > 12: one digit)' % (rks, rnds),
+                'fallback_early_exit_templates': [_tmplstr(t) for t in S5],
                 'exact_path': 'atof64exact for every decimal exponent -26..41, both signs, every 64-bit mantissa',
                 'eisel_lemire': 'every one of the 696 table rows x every 64-bit mantissa with 0 leading zeros; leading-zero counts %s on %s rows; negative sign on the same rows' % (extra_clz, 'every 58th' if tier == 'quick' else 'all')}
-    c.must_reach = ['C04.scan-returned', 'C04.scan-ok', 'C04.el-returned', 'C04.el-ok', 'C04.exact-returned', 'C04.exact-ok', 'C04.glue-returned', 'C04.glue-ok', 'C04.api-number', 'C04.shift-done']
+    c.must_reach = ['C04.scan-returned', 'C04.scan-ok', 'C04.el-returned', 'C04.el-ok', 'C04.exact-returned', 'C04.exact-ok', 'C04.glue-returned', 'C04.glue-ok', 'C04.api-number', 'C04.shift-done', 'C04.slow-returned']
     _std(c, ['R-ROUND (engine/gosym/fpspec.py): nearest binary64 with ties to even, as linear integer inequalities per exponent field; validated natively with math/big in replays',
              'math/bits.Mul64 and LeadingZeros64 are exact term-level intrinsics',
              'tier 4: eiselLemire64 replaced by its contract (free ok; when ok the result is rnd(man*10^exp), tier 3); atof64exact runs for real in the exact-rational model; f2 == fUp implies every value between the two bounds rounds to f2 (monotonicity of rounding, meta-argument)',
              'tier 2: each IEEE-754 operation on exactly known operands returns rnd(exact result) (the standard\'s definition); comparisons with constants are translated to the un-rounded value by rounding midpoints; an intermediate is taken as exact only when the solver proves it is an integer <= 2^53 on the path, otherwise the double rounding is decided with R-ROUND'])
-    c.outside = ['of the multi-precision fallback only the left-shift unit is established (operands up to %d digits); rightShift, floatBits loop composition, RoundedInteger and decimal.set are not (rightShift with 3 digits exhausted the worker memory limit: termination of its remainder loop is not decided by the integer encoding)' % nds[-1],
+    c.outside = ['of the multi-precision fallback these units are established: leftShift (operands up to %d digits, every shift count of the tier), rightShift (shift counts %s, up to %d digits), and decimal.set + floatBits run for real on the literals floatBits settles before shifting (exponent beyond +310 / below -330, zero digit strings). The floatBits scaling loops, RoundedInteger and their composition are not: with two or more symbolic digits the rounding obligation on the composed shifts is not decided within the job deadline' % (nds[-1], '%d..%d' % (rks[0], rks[-1]), rnds[-1]),
                  'tier 4 uses the CONTRACT of the multi-precision fallback (returns the correctly rounded literal, overflow flag exact) as an assumption; literals with symbolic exponent digits are outside the glue templates',
                  'the multi-precision decimal fallback (decimal.set, floatBits, shifts): literals with more than 19 significant digits whose bounds disagree, exact halfway cases, exponents beyond +-347, subnormal and overflowing magnitudes are NOT established end to end',
                  'literals longer than the scanner bounds']
